@@ -41,7 +41,8 @@ def design(rings, pd=1.20, hd=30.0, ducts=1, oftf=0.060, duct_t=0.0025,
             o = o - 2 * t - 2 * bs[ducts - 2 - d]
     iftf = ftf[0]
     wfrac = 0.95 if wire else 0.0     # wire diameter as share of pin gap
-    clr = {'tight': 0.0, 'loose': 0.35, 'mid': 0.12}[clearance]
+    # edge clearance as a share of the pin pitch (a number is taken as it is)
+    clr = {'tight': 0.0, 'loose': 0.35, 'mid': 0.12}[clearance] if isinstance(clearance, str) else float(clearance)
     # iftf = sqrt3 (n-1) pd D + D + 2 wfrac (pd-1) D + clr*pd*D + 1e-5
     denom = SQ3 * (rings - 1) * pd + 1 + 2 * wfrac * (pd - 1) + clr * pd
     D = (iftf - 2e-5) / denom
